@@ -10,6 +10,9 @@ structure DState where
   accHash : Nat := 14695981039346656037
   monitor : Bool := false        -- a format/filter the model does not cover: check the predicate on `obs` only
   freed : Bool := false
+  fileCheck : Bool := false      -- this line ends with the file-content check of the fd/filename/FILE sinks
+  sysScript : List SysAns := []
+  sawFatal : Bool := false       -- an earlier call returned fatal (the handle may be in state FATAL)
   everBad : Bool := false        -- some earlier call saw a failing callback invocation
   sawFilter : Bool := false      -- a `filter` op was issued (the filter chain is freed when open fails)
 
@@ -48,12 +51,14 @@ def report (d : DState) (evs : List Event) : DState × String :=
   let undef := evs.any (fun e => e.offer.any Option.isNone)
   let memTxt := match d.w with
     | .mem m => s!" used={m.clientUsed}" ++ (if m.oob then " MODEL-OOB" else "")
+    | .fd s => s!" sys={s.n} short={s.short} eintr={s.eintr} sh={s.h}"
     | _ => ""
   let streamTxt := match d.h with
     | some h => if h.fmt = .raw ∧ h.enc.isNone ∧ !d.sawFilter ∧ !d.everBad then " stream=ok" else ""
     | none => ""
   (d', s!" ev={evs.length} sz={rleStr (evs.map (·.offer.length))} h={eventsHash evs} bad={if bad then 1 else 0}" ++
-    s!" acc={d'.accLen}:{d'.accHash}" ++ (if undef then " UNDEF" else "") ++ streamTxt ++ memTxt)
+    s!" acc={d'.accLen}:{d'.accHash}" ++ (if undef then " UNDEF" else "") ++ streamTxt ++ memTxt ++
+    (if d.fileCheck then " file=ok" else ""))
 
 def finish (d : DState) (name : String) (r : Int × Handle × List Event × DW) (asCount : Bool := false) :
     DState × String :=
@@ -68,6 +73,22 @@ def parseAns (s : String) : Option Ans :=
   else if s.startsWith "a" then (s.drop 1).toString.toNat?.map Ans.accept
   else none
 
+def parseSys (s : String) : Option SysAns :=
+  if s == "z" then some .zero
+  else if s == "e" then some .error
+  else if s == "i" then some .eintr
+  else if s == "A" then some (.accept 1000000000)
+  else if s.startsWith "a" then (s.drop 1).toString.toNat?.map SysAns.accept
+  else none
+
+def genRand (len seed : Nat) : List Nat :=
+  let rec go : Nat → Nat → List Nat → List Nat
+    | 0, _, acc => acc.reverse
+    | n + 1, x, acc =>
+      let x' := (x * 1103515245 + 12345) % 2147483648
+      go n x' ((x' / 65536) % 256 :: acc)
+  go len (seed % 2147483648) []
+
 def parseType : String → Option FileType
   | "reg" => some .reg | "dir" => some .dir | "lnk" => some .lnk | "hard" => some .reg
   | "chr" => some .chr | "blk" => some .blk | "fifo" => some .fifo | "sock" => some .sock
@@ -78,18 +99,30 @@ def genFill (len seed : Nat) : List Nat :=
 
 /-- Monitor mode: the only thing checked is the property predicate on what the
 implementation printed: a call during which the callback failed must not report success. -/
-def monitorLine (obs : String) : String :=
+def monitorLine (obs : String) (freeOnFatal : Bool := false) : String :=
   let ws := LA.words obs
-  let bad := ws.contains "bad=1"
+  -- archive_write_free on a handle that is already FATAL closes the filters and deliberately
+  -- drops the status of that ("(void)__archive_write_filters_close(a)")
+  let bad := ws.contains "bad=1" && !(freeOnFatal && ws.head? == some "free")
   let st := ws.getD 1 ""
   let okish := st == "ok" || st == "warn" || st.toNat?.isSome
   if bad && okish then "VIOLATED write-fault-not-reported: " ++ obs else obs
+
+/-- `archive_write_open_fd` / `_filename` (regular file: unpadded by default) / `_FILE`. -/
+def openSink (d : DState) (h : Handle) (regularFile : Bool) : DState × String :=
+  let h' := { h with fileSink := regularFile }
+  let w0 : DW := .fd { sc := d.sysScript }
+  finish { d with w := w0 } "open" (apiOpen driverWriter w0 h')
 
 def stepLine0 (d : DState) (op obs : String) : DState × String :=
   let ws := LA.words op
   -- structural ops first (also in monitor mode)
   match ws with
   | ["new"] => ({ h := some {} }, "ok")
+  | "sys" :: as =>
+    match as.mapM parseSys with
+    | some sc => ({ d with sysScript := sc }, "ok")
+    | none => (d, "bad-op")
   | "script" :: as =>
     match as.mapM parseAns with
     | some sc => ({ d with w := .script sc }, "ok")
@@ -116,13 +149,15 @@ def stepLine0 (d : DState) (op obs : String) : DState × String :=
     if f == "b64" then ({ d with sawFilter := true, h := some { h with enc := some { kind := .b64 } } }, "filter ok")
     else if f == "uu" then ({ d with sawFilter := true, h := some { h with enc := some { kind := .uu } } }, "filter ok")
     else ({ d with monitor := true }, obs)
-  | ["opt", _] => if d.monitor then (d, obs) else (d, "bad-op")
+  | ["opt", _] =>
+    -- writer/filter options are outside the model: from here on only the predicates are checked
+    ({ d with monitor := true }, obs)
   | ["opener", v] =>
     match v.toInt? with
     | some r => ({ d with h := some { h with openerRet := r } }, "ok")
     | none => (d, "bad-op")
   | _ =>
-  if d.monitor then (d, monitorLine obs) else
+  if d.monitor then (d, monitorLine obs d.sawFatal) else
   match ws with
   | ["bpb", v] =>
     match v.toInt? with
@@ -139,6 +174,9 @@ def stepLine0 (d : DState) (op obs : String) : DState × String :=
       let r := setBil h n
       ({ d with h := some r.2 }, "bil " ++ stName r.1)
   | ["open"] => finish d "open" (apiOpen driverWriter d.w h)
+  | ["openfd"] => openSink d h true
+  | ["openfile"] => openSink d h true
+  | ["openFILE"] => openSink d h false
   | ["openmem", blk, sz] =>
     match blk.toNat?, sz.toNat? with
     | some b, some s =>
@@ -172,6 +210,11 @@ def stepLine0 (d : DState) (op obs : String) : DState × String :=
     match LA.parseHex hex with
     | some bs => finish d "data" (apiData driverWriter d.w h (bs.map some)) true
     | none => (d, "bad-op")
+  | ["rand", len, seed] =>
+    match len.toNat?, seed.toNat? with
+    | some l, some s => finish d "data" (apiData driverWriter d.w h ((genRand l s).map some)) true
+    | _, _ => (d, "bad-op")
+  | ["pass", _] => (d, if h.state = .new then "pass ok" else "pass fatal")
   | ["fill", len, seed] =>
     match len.toNat?, seed.toNat? with
     | some l, some s => finish d "data" (apiData driverWriter d.w h ((genFill l s).map some)) true
@@ -179,14 +222,16 @@ def stepLine0 (d : DState) (op obs : String) : DState × String :=
   | ["finish"] => finish d "finish" (apiFinishEntry driverWriter d.w h)
   | ["close"] => finish d "close" (apiClose driverWriter d.w h)
   | ["free"] =>
-    let r := finish d "free" (apiFree driverWriter d.w h)
-    ({ r.1 with freed := true }, r.2)
+    let isFd := match d.w with | .fd _ => true | _ => false
+    let r := finish { d with fileCheck := isFd } "free" (apiFree driverWriter d.w h)
+    ({ r.1 with freed := true, fileCheck := false }, r.2)
   | _ => (d, "bad-op")
 
 /-- Engine `det` merges two runs of the implementation under different heap/stack poison; a
 line on which they differ arrives as `NONDET …` and is a violation of C11 whatever the model says. -/
 def stepLine (d : DState) (op obs : String) : DState × String :=
-  let r := stepLine0 d op obs
+  let r0 := stepLine0 d op obs
+  let r := ({ r0.1 with sawFatal := r0.1.sawFatal || (LA.words r0.2).getD 1 "" == "fatal" }, r0.2)
   if obs.startsWith "NONDET" then (r.1, "VIOLATED output-depends-on-heap-or-stack-contents: " ++ obs) else r
 
 def engine : LA.Engine := { σ := DState, init := {}, step := stepLine }
